@@ -1,6 +1,6 @@
 (** C09 — Range requests return exactly the requested slice.
     Only statements here; proofs are in Proofs/RangeProofs.v. *)
-From KV Require Import Bytes RustInt Range RangeProofs.
+From KV Require Import Bytes RustInt Range RangeProofs RangeConn RangeConnProofs.
 Open Scope N_scope.
 
 (** 206 slice + content-range equation, 416 cases, everything else 200: the code's
@@ -53,4 +53,69 @@ Example range_ex_syntax : range_syntax (B "bytes=+2-05") 2 5.
 Proof. apply parse_range_syntax. vm_compute. reflexivity. Qed.
 Example range_ex_tiling :
   concat (map (fun r => reply_body (range_spec (Some r) (B "0123456789"))) (tile_ranges 0 [3; 1; 6])) = B "0123456789".
+Proof. vm_compute. reflexivity. Qed.
+
+(** ---- Connection level: the request path around the range arithmetic (Model/RangeConn.v) ----
+    [serve_history] models [handle_cache] ([sanitize_request] once, before the cache lookup; the
+    cache-hit guard; handler / error page; storing) followed by [SendKind::send] (the range is
+    applied to the content-encoded representation, 416 short-circuit, content-length of the slice,
+    no body for HEAD).  For every page (= its representations per Accept-Encoding class), every
+    state of the response cache that is absent or holds this page, both arithmetic modes and every
+    history of GET/HEAD requests with arbitrary Range header values: each reply is [range_spec]
+    of the representation that a request WITHOUT Range receives under the same Accept-Encoding. *)
+Theorem range_conn_correct : forall (checked caching : bool) (pg : page) (cache : option page) (reqs : list creq),
+  page_fits pg -> cache_ok pg cache ->
+  serve_history checked caching pg cache reqs = Ok (history_spec pg reqs).
+Proof. exact serve_history_spec. Qed.
+
+(** The reply to a request is the same after every history prefix (cold, warmed by GET, by HEAD, by a
+    ranged or an unsatisfiable request, ...), with and without a response cache. *)
+Theorem range_history_independent : forall (checked caching : bool) (pg : page) (pre : list creq) (q : creq),
+  page_fits pg -> reply_after checked caching pg pre q = Ok (reply_spec pg q).
+Proof. exact reply_after_spec. Qed.
+
+(** HEAD has the GET reply's status and headers (content-range, content-length, content-encoding,
+    accept-ranges) and no body, in every cache state. *)
+Theorem range_head_as_get : forall (checked caching : bool) (pg : page) (cache : option page) (ae : N) (hdr : option bytes),
+  page_fits pg -> cache_ok pg cache ->
+  fst (conn_step checked caching pg cache {| q_method := HEAD; q_ae := ae; q_range := hdr |})
+  = omap strip_body (fst (conn_step checked caching pg cache {| q_method := GET; q_ae := ae; q_range := hdr |})).
+Proof. exact head_as_get. Qed.
+
+(** The 206 body is the slice of the body of the un-ranged 200 reply of the same Accept-Encoding
+    class (the encoded bytes), with the same content-encoding. *)
+Theorem range_slice_of_unranged : forall (pg : page) (ae : N) (v : bytes) (a c : N),
+  parse_range v = Some (a, c) -> a <= c -> a < N.of_nat (length (rp_body (choose pg ae))) ->
+  exists full part,
+    reply_spec pg {| q_method := GET; q_ae := ae; q_range := None |} = WResp full /\
+    reply_spec pg {| q_method := GET; q_ae := ae; q_range := Some v |} = WResp part /\
+    w_status full = 200 /\ w_status part = 206 /\
+    w_content_encoding part = w_content_encoding full /\
+    w_body part = firstn (N.to_nat (N.min c (w_content_length full - 1) - a + 1)) (skipn (N.to_nat a) (w_body full)) /\
+    w_content_length part = N.of_nat (length (w_body part)).
+Proof. exact ranged_is_slice_of_unranged. Qed.
+
+(** Non-vacuity.  A page with an identity and a "gzip" representation (class 0 / class 1). *)
+Definition ex_page : page :=
+  [ {| rp_encoding := Some (B "identity"); rp_body := B "0123456789" |};
+    {| rp_encoding := Some (B "gzip"); rp_body := B "GZIPPEDBYTES" |} ].
+Example range_conn_ex_fits : page_fits ex_page.
+Proof. repeat constructor; vm_compute; discriminate. Qed.
+(** warm-up GET, then start > end on the warm cache: 416, not the cached body
+    (the history of the cache-hit guard [sanitize_data.is_ok()]). *)
+Example range_conn_ex_warm_416 :
+  serve_history true true ex_page None
+    [ {| q_method := GET; q_ae := 0; q_range := None |};
+      {| q_method := GET; q_ae := 0; q_range := Some (B "bytes=7-2") |};
+      {| q_method := HEAD; q_ae := 1; q_range := Some (B "bytes=3-100") |} ]
+  = Ok [ WResp {| w_status := 200; w_content_range := None; w_content_length := 10;
+                  w_content_encoding := Some (B "identity"); w_accept_ranges := true; w_body := B "0123456789" |};
+         W416;
+         WResp {| w_status := 206; w_content_range := Some (B "bytes 3-11/12"); w_content_length := 9;
+                  w_content_encoding := Some (B "gzip"); w_accept_ranges := false; w_body := [] |} ].
+Proof. vm_compute. reflexivity. Qed.
+Example range_conn_ex_cached_state :
+  fst (conn_step false true ex_page (Some ex_page) {| q_method := GET; q_ae := 1; q_range := Some (B "bytes=0-3") |})
+  = Ok (WResp {| w_status := 206; w_content_range := Some (B "bytes 0-3/12"); w_content_length := 4;
+                 w_content_encoding := Some (B "gzip"); w_accept_ranges := false; w_body := B "GZIP" |}).
 Proof. vm_compute. reflexivity. Qed.
